@@ -11,7 +11,8 @@ import re
 
 from .. import facts
 from ..cfg import Cfg
-from ..common import def_of, inst_of, method
+from ..prov import Prov
+from ..common import def_of, inst_of, method, arg_roots
 from ..prover import (Ctx, Lin, analyze, entails, counter_model, V_slice, V_int, UNKNOWN, V_opt, V_struct, struct_get, satisfiable, FALSE)
 from ..util import fns_by_key, keyname, place_of, norm, last
 
@@ -64,7 +65,7 @@ def run(ck, tier):
     except Exception as e:
         ck.refuted("R-C01-units", "internal:%s" % type(e).__name__, "", "rule could not run: %s" % e)
     from ..prover import Budget
-    for sub in (_consumers, _lexer, _loops, _spans, _precond, _total, _twin_scans, _md_breaks):
+    for sub in (_consumers, _lexer, _loops, _spans, _precond, _total, _twin_scans, _md_breaks, _matchlen):
         try:
             sub(ck, p)
         except Budget as e:
@@ -927,3 +928,109 @@ def _md_breaks(ck, p):
             ck.proved(rule, key, f.loc(sx["ln"]), "the break's position derives from the end of the last token pushed (%s)" % sorted(names & {"last", "max", "new_with_len"}))
         else:
             ck.refuted(rule, key, f.loc(sx["ln"]), "the block break is placed at the bare cursor (%s): an End event carries the range of the whole block, so the cursor still points at the start of the block's last run of text and the break precedes tokens of its own block; a sentence slice that ends in it has last.span.end < first.span.start, and LongSentences' Span::new(first.start, last.end) panics for a sentence of more than 40 words that does not open its paragraph and has no full stop" % sorted(names))
+
+
+# ---------------------------------------------------------------------------------------------------
+PANIC_CALLEES = re.compile(r"^(core::panicking::(panic|panic_fmt|panic_explicit|unreachable_display|panic_display|panic_str_2015|panic_nounwind)|std::rt::begin_panic|core::panicking::panic_const::.*)$")
+VARLEN_STEPS = ("then_whitespace", "then_one_or_more")
+
+
+def _matchlen(ck, p):
+    """A pattern rule's match_to_lint is handed exactly the tokens its pattern matched.  Where the body
+    switches on how many there are and panics in the default arm (unreachable!(), panic!()), the count
+    must be one of a fixed set - which it is not once the pattern has a step that matches a *run* of
+    tokens: WhitespacePattern (then_whitespace) takes every consecutive whitespace token, and a blank
+    followed by a line break is two tokens."""
+    rule = "R-C01-matchlen"
+    ck.rule(rule, "linting: a PatternLinter::match_to_lint body that switches on matched_tokens.len() and panics in the default arm (unreachable!/panic!) belongs to a pattern without variable-length steps (then_whitespace / WhitespacePattern, then_one_or_more, RepeatingPattern): a run of whitespace tokens - a blank followed by a line break - otherwise produces a length the arms do not list")
+    impls = [f for f in p.fns.values() if f.name.startswith("harper_core::linting::") and f.name.endswith("::match_to_lint") and f.get("kind") != "Closure"]
+    ck.floor(rule, "PatternLinter::match_to_lint bodies in harper_core::linting", len(impls), 26)
+    sites = 0
+    for f in sorted(impls, key=lambda x: x.name):
+        cfg = Cfg(f)
+        pv = Prov(f)
+        panics = [(bi, t) for bi, t in f.calls() if bi in cfg.reach0 and PANIC_CALLEES.match(norm(inst_of(t)) or "") and not f.blocks[bi]["cleanup"]]
+        if not panics:
+            continue
+        lens = []
+        for bi, b in enumerate(f.blocks):
+            t = b["t"]
+            if t["k"] != "switch" or bi not in cfg.reach0:
+                continue
+            for o in arg_roots(f, pv, t["discr"]):
+                if o[0] == "call" and method(f.blocks[o[1]]["t"]) == "len":
+                    la = f.blocks[o[1]]["t"]["args"]
+                    if la and ("arg", 2) in arg_roots(f, pv, la[0]):
+                        lens.append(bi)
+        for bi, t in panics:
+            gate = [sb for sb in lens if f.blocks[sb]["t"].get("otherwise") is not None and (f.blocks[sb]["t"]["otherwise"] == bi or bi in cfg.reachable_from([f.blocks[sb]["t"]["otherwise"]], avoid=[x for _, x in f.blocks[sb]["t"]["targets"]]))]
+            if not gate:
+                continue
+            sites += 1
+            ck.saw(f)
+            key = "%s:default-arm" % keyname(p, f)
+            mod = f.name.rsplit("::", 2)[0]
+            mod = re.sub(r"::\{impl[^}]*\}$", "", mod)
+            var = []
+            for g in p.fns.values():
+                if g.name.startswith(mod + "::") and g is not f:
+                    for _, ct in g.calls():
+                        m = method(ct)
+                        if m in VARLEN_STEPS or "WhitespacePattern" in str(inst_of(ct)) or "RepeatingPattern" in str(inst_of(ct)):
+                            var.append("%s (%s)" % (m, g.loc(ct["ln"])))
+            arms = sorted(v for v, _ in f.blocks[gate[0]]["t"]["targets"])
+            if var:
+                ck.refuted(rule, key, f.loc(t["ln"]), "the body panics unless matched_tokens.len() is one of %s, but the rule's pattern has variable-length steps: %s - with a blank followed by a line break between two of the words the whitespace step matches two tokens and the length is none of those" % (arms, ", ".join(sorted(set(var))[:4])))
+            else:
+                ck.proved(rule, key, f.loc(t["ln"]), "default arm after arms %s panics; the pattern of this rule is built without variable-length steps (no then_whitespace / then_one_or_more / RepeatingPattern in %s)" % (arms, mod))
+    ck.floor(rule, "match_to_lint bodies with a length switch whose default arm panics", sites, 1)
+
+
+CHAR_METHODS = {
+    "is_whitespace": lambda x: x.isspace(),
+    "is_ascii_whitespace": lambda x: x in " \t\n\r\x0c",
+    "is_ascii_digit": lambda x: "0" <= x <= "9",
+    "is_ascii_hexdigit": lambda x: x in "0123456789abcdefABCDEF",
+    "is_ascii_alphabetic": lambda x: ("a" <= x <= "z") or ("A" <= x <= "Z"),
+    "is_ascii_alphanumeric": lambda x: ("a" <= x <= "z") or ("A" <= x <= "Z") or ("0" <= x <= "9"),
+    "is_ascii_uppercase": lambda x: "A" <= x <= "Z",
+    "is_ascii_lowercase": lambda x: "a" <= x <= "z",
+    "is_ascii_punctuation": lambda x: x in "!\"#$%&'()*+,-./:;<=>?@[\\]^_`{|}~",
+    "is_ascii": lambda x: ord(x) < 128,
+    "is_ascii_control": lambda x: ord(x) < 32 or ord(x) == 127,
+    "is_alphabetic": lambda x: x.isalpha(),
+    "is_numeric": lambda x: x.isnumeric(),
+    "is_alphanumeric": lambda x: x.isalnum(),
+    "is_control": lambda x: ord(x) < 32 or 127 <= ord(x) < 160,
+}
+
+
+def eval_char_pred(p, c, ch, depth=0, args=None):
+    """evaluate a closure / function over one character (the closure's argument is `&char` or `char`);
+    returns a bool or raises interp.Stuck"""
+    from ..interp import Interp, Stuck
+    if depth > 6:
+        raise Stuck("helper nesting")
+
+    def call(t, a):
+        inst = norm(inst_of(t))
+        g = p.fns.get(inst_of(t)) or p.fns.get(inst)
+        if a and a[0][0] == "char" and "char::methods" in inst and last(inst) in CHAR_METHODS:
+            return ("bool", bool(CHAR_METHODS[last(inst)](chr(a[0][1]))))
+        if g is not None and a and all(x[0] in ("char", "bool", "int") for x in a):
+            return ("bool", eval_char_pred(p, g, None, depth + 1, a))
+        raise Stuck("call to %s" % inst)
+    env = {}
+    if args is None:
+        ty = c.local_tystr(2) or ""
+        if "(usize, &char)" in ty or "(usize, char)" in ty:
+            env[2] = ("tuple", [("int", 0), ("char", ch)])
+        else:
+            env[2] = ("char", ch)
+    else:
+        for i, x in enumerate(args):
+            env[i + 1] = x
+    r, _ = Interp(c, max_steps=400).run(env, hooks={"call": call})
+    if r[0] != "bool":
+        raise Stuck("predicate result is %s" % (r,))
+    return r[1]
